@@ -188,6 +188,7 @@ func runProp(id string, f propFunc, tier, repo, verif string) int {
 				c.R = r
 			}
 			f(c)
+			sharedLockBalance(id, c)
 			fixtures = append(fixtures, c.fixtures...)
 		}()
 		if p != nil {
